@@ -123,7 +123,13 @@ def load_findings(prop):
             data = json.load(f)
     except FileNotFoundError:
         return []
-    return [f for f in data.get("findings", []) if f.get("property") == prop and f.get("status") == "open"]
+    out = []
+    for f in data.get("findings", []):
+        if f.get("property") == prop and f.get("status") == "open":
+            f = dict(f)
+            f["sigs"] = list(f.get("sigs") or []) + ([f["sig"]] if f.get("sig") else [])
+            out.append(f)
+    return out
 
 
 def classify_crash(output):
@@ -246,7 +252,7 @@ def run_fuzz(prop, target, scratch, extra, overlay, execs):
         os.removedirs(crashdir)
     except OSError:
         pass
-    open_sigs = {f["sig"] for f in load_findings(prop)}
+    open_sigs = {sg for f in load_findings(prop) for sg in f["sigs"]}
     res["violations"] = [v for v in res["violations"] if v.get("sig") not in open_sigs]
     if rc != 0 and not res["violations"]:
         if "FAIL" in out and "--- FAIL" in out:
@@ -339,11 +345,11 @@ def drive(prop, cfg, tier, seed, binary, extra, scratch, args, t0, vmerge):
 
     # --- replay tier: witnesses of listed findings, committed corpus -----------
     findings = load_findings(prop)
-    open_sigs = {f["sig"]: f for f in findings}
+    open_sigs = {sg: f for f in findings for sg in f["sigs"]}
     for f in findings:
         w = os.path.join(ROOT, f["witness"])
         st, sig, msg = run_replay(binary, prop, w, scratch, extra)
-        if st == "fail" and sig == f["sig"]:
+        if st == "fail" and sig in f["sigs"]:
             known_lines.append("KNOWN-FINDING: property=%s %s [%s]" % (prop, f["what"], f["id"]))
         elif st == "fail":
             if sig in open_sigs:
